@@ -73,7 +73,7 @@ def run_cases(chk, binp, cases, pf_ok, pf):
     tie, viol, judged, known = [], [], 0, 0
     dist = {"nil": 0, "valid": 0, "invalid": 0, "panic": 0}
     types, distinct = {}, set()
-    inside = [0, 0]
+    inside = [0, 0, 0]
     for j in J:
         g, c = j["go"], j["case"]
         if g is None:
@@ -98,13 +98,19 @@ def run_cases(chk, binp, cases, pf_ok, pf):
         fr = j.get("frag")
         if fr and fr[0]:
             inside[0] += 1
+            typed = len(fr) > 2 and fr[2]
+            if typed:
+                inside[2] += 1       # through C16_typed_values_agree_with_the_reading_of_the_value_they_carry_partial only
             m = j["model"]
             if m is None or m.get("outcome") != "ok" or m.get("nil") or m.get("valid") != fr[1]:
-                chk.violation("the extracted model contradicts C16_agreement_for_the_binary64_model",
+                # for typed values the theorem assumes the numeric interface is exact: a difference here also says that
+                # the binary64 instance breaks that assumption on this case
+                chk.violation("the extracted model contradicts %s" % ("the typed-value agreement theorem (or the binary64 instance is not exact on this case)"
+                                                                      if typed else "C16_agreement_for_the_binary64_model"),
                               {"theorem_or_correspondence": "extraction of the simple-schema class", "case": c, "model": m, "reading": fr[1]}, no_input=True)
             elif g["valid"] != fr[1]:
                 inside[1] += 1
-                viol.append((j, fr[1], ["declarative reading of Schema/SimpleAgree.v (proved equal to the model inside its class)"], None))
+                viol.append((j, fr[1], ["declarative reading of Schema/SimpleAgree.v / SimpleCarrier.v (proved equal to the model inside its class)"], None))
                 continue
         t = c["def"].get("type", "")
         types[t] = types.get(t, 0) + 1
@@ -144,6 +150,7 @@ def run_cases(chk, binp, cases, pf_ok, pf):
                                                  "exact oracle lib/simplerun.py:simple_ok (python fractions) for the failing-input search"],
         "evaluations": len(J), "distinct_nontrivial": len(distinct),
         "cases_inside_the_proved_class": inside[0], "of_which_go_differs_from_the_reading": inside[1],
+        "of_which_typed_values_conditional_on_the_exact_numeric_interface": inside[2],
         "rule": "random simple-schema definitions (type x format of that type x constraint families, items nested to depth 4) as "
                 "parameters and headers, with typed Go values built by reflection (10 integer kinds, float32/64, strings, bools, []T, "
                 "[][]T, []interface{}), mostly of the declared kind; each validated plain and recycling, compared with the model and "
